@@ -404,6 +404,49 @@ def runSymbols (j : Json) : P Json := do
   let steps ← go none ops []
   pure (Json.mkObj [("steps", Json.arr steps.toArray)])
 
+/-! ### print (C14) -/
+section PrintOp
+open Biscuit.Printer Biscuit.Codec.Src
+
+def ambRule (r : Printer.SRule) : Bool :=
+  ambiguousL r.head.terms || r.body.any (fun p => ambiguousL p.terms)
+    || r.exprs.any (fun ops => ambOps ops)
+where
+  ambOps : List POp → Bool
+    | [] => false
+    | .val t :: k => ambiguous t || ambOps k
+    | .clo _ body :: k => ambOps body || ambOps k
+    | _ :: k => ambOps k
+
+def runPrint (j : Json) : P Json := do
+  let kind ← (← field j "kind").getStr?
+  let item ← field j "item"
+  let (text, amb) ← (match kind with
+    | "fact" => do
+      let p ← parseSPred item
+      pure (printPred p, ambiguousL p.terms)
+    | "rule" => do
+      let r ← parseSRule item
+      pure (printRule r, ambRule r)
+    | "check" => do
+      let c ← parseSCheck item
+      pure (printCheck c, c.queries.any ambRule)
+    | "policy" => do
+      let p ← parseSPolicy item
+      pure (printPolicy p, p.queries.any ambRule)
+    | "block" => do
+      let b ← parseSBlockSrc item
+      pure (printBlock b, b.facts.any (fun p => ambiguousL p.terms) || b.rules.any ambRule
+        || b.checks.any (fun c => c.queries.any ambRule))
+    | "authorizer" => do
+      let a ← parseSAuthorizer item
+      pure (printAuthorizer a, a.facts.any (fun p => ambiguousL p.terms) || a.rules.any ambRule
+        || a.checks.any (fun c => c.queries.any ambRule) || a.policies.any (fun c => c.queries.any ambRule))
+    | other => throw s!"unknown print kind {other}" : P (String × Bool))
+  pure (Json.mkObj [("text", text), ("amb_param", Json.bool amb)])
+
+end PrintOp
+
 def handle (line : String) : String :=
   match Json.parse line with
   | .error e => (Json.mkObj [("driver_error", s!"parse: {e}")]).compress
@@ -424,6 +467,7 @@ def handle (line : String) : String :=
       | "tpu" => runTpu j
       | "versions" => runVersions j
       | "symbols" => runSymbols j
+      | "print" => runPrint j
       | _ => throw s!"unknown op {op}"
     match r with
     | .ok o => o.compress
